@@ -267,6 +267,19 @@ func (k *Kernel) Sendto(wire []byte, dstPid uint32) int {
 		r.Malformed = "NLM_F_REQUEST not set"
 		return 0 // netlink_rcv_skb ignores non-requests
 	}
+	if r.Seq == 0 {
+		// The request whose sequence number is 0 (reached after 2^32 requests on
+		// one client, or by fast-forwarding the counter) cannot be told from an
+		// audit record by the reader, which has to treat sequence 0 as
+		// "unsolicited". That request is exempt from unsolicited-record faults;
+		// see DESIGN.md (limits).
+		f.UnsolBefore, f.UnsolAfter, f.UnsolMid = 0, 0, 0
+		for _, d := range k.Queue {
+			if !d.Consumed && d.Kind == DUnsolicited {
+				d.Consumed = true // nor are earlier audit records still waiting in the socket
+			}
+		}
+	}
 	avail := now + f.DelayNs
 	if f.DelayNs > 0 {
 		k.FiredDelay++
